@@ -150,7 +150,8 @@ class Op:
         return onnx.defs.get_schema(self.name, self.modver, self.domain)
 
 
-SUBGRAPH_OPS = {"If", "Loop", "Scan", "SequenceMap"}
+SUBGRAPH_OPS = {"Scan", "SequenceMap"}  # not generated
+BODY_OPS = {"If", "Loop"}  # generated with Identity bodies over outer-scope values
 
 
 def load_vocabulary():
@@ -333,8 +334,64 @@ def _gen_attr_value(rng, op_name, aname, a, rank, is_dtype=False):
     return None  # GRAPH / SPARSE_TENSOR: not generated
 
 
+def _gen_body_call(rng, op: Op, force: Optional[str] = None) -> dict:
+    """If / Loop: bodies are Identity nodes over outer-scope values (`sub` names them by Var id)."""
+    family = force or _pick(rng, [("plain", 70), ("illtyped", 14), ("untyped", 6), ("unkrank", 10)])
+    e = rng.choice([1, 7, 11, 9, 6])
+    base = _rand_dims(rng, rng.randint(0, 3))
+    vars_ = []
+
+    def tvar(elem, shape):
+        vars_.append({"ty": {"t": elem, "s": shape}, "const": None})
+        return len(vars_) - 1
+
+    def pool_var(k):
+        r = rng.random()
+        if family == "unkrank" and r < 0.4:
+            return tvar(e, None)
+        if r < 0.6:
+            return tvar(e, list(base))
+        if r < 0.85:
+            return tvar(e, _variant(rng, base))
+        return tvar(rng.choice([x for x in (1, 7, 9, 11) if x != e]) if family == "illtyped" or rng.random() < 0.2 else e, list(base))
+
+    cond_elem = 9 if family != "illtyped" or rng.random() < 0.5 else rng.choice([1, 7])
+    cond_shape = [] if rng.random() < 0.8 else rng.choice([[1], None, [2]])
+    if op.name == "If":
+        cond = tvar(cond_elem, cond_shape)
+        n = rng.choice([1, 1, 2, 3])
+        then, els = [], []
+        for k in range(n):
+            a = pool_var(k)
+            then.append(a)
+            els.append(a if rng.random() < 0.5 else pool_var(k))
+        if rng.random() < 0.05:
+            els = els[:-1] or els
+        call = {"module": op.module, "op": "If", "vars": vars_, "args": [cond], "attrs": {},
+                "sub": {"then": then, "else": els}, "out_count": len(els), "family": family}
+    else:
+        M = tvar(7 if family != "illtyped" or rng.random() < 0.6 else 6, [] if rng.random() < 0.8 else [1]) if rng.random() < 0.7 else None
+        cond = tvar(cond_elem, cond_shape) if rng.random() < 0.7 else None
+        nc = rng.choice([0, 1, 1, 2])
+        carried = [pool_var(k) for k in range(nc)]
+        csrc = []
+        for k in range(nc):
+            r = rng.random()
+            csrc.append("same" if r < 0.7 else pool_var(k))
+        scan = [pool_var(k) for k in range(rng.choice([0, 0, 1, 2]) if nc else rng.choice([1, 2]))]
+        call = {"module": op.module, "op": "Loop", "vars": vars_, "args": [M, cond, carried], "attrs": {},
+                "sub": {"carried": csrc, "scan": scan}, "out_count": nc + len(scan), "family": family}
+    if family == "untyped":
+        present = [v for a in call["args"] for v in (a if isinstance(a, list) else [a]) if v is not None]
+        if present:
+            vars_[rng.choice(present)] = {"ty": None, "const": None}
+    return call
+
+
 def gen_call(rng, op: Op, force: Optional[str] = None) -> dict:
     """One abstract constructor call for `op`. `force` selects a calling-form family."""
+    if op.name in BODY_OPS:
+        return _gen_body_call(rng, op, force)
     sch = op.schema()
     O = onnx.defs.OpSchema.FormalParameterOption
     tc = {c.type_param_str: list(c.allowed_type_strs) for c in sch.type_constraints}
@@ -757,6 +814,40 @@ def oracle_attr(sch, aname, val):
     return onnx.helper.make_attribute(aname, val, attr_type=a.type)
 
 
+def oracle_bodies(call):
+    """Hand-written body graphs of If / Loop: Identity nodes over outer-scope values / body inputs."""
+    sub = call["sub"]
+    T = lambda v: ty_to_proto(call["vars"][v]["ty"])
+    out = []
+    if call["op"] == "If":
+        for aname, key in (("then_branch", "then"), ("else_branch", "else")):
+            nodes, outs = [], []
+            for k, v in enumerate(sub[key]):
+                nodes.append(onnx.helper.make_node("Identity", [f"i{v}"], [f"{key}{k}"]))
+                outs.append(onnx.helper.make_value_info(f"{key}{k}", T(v)))
+            out.append((aname, onnx.helper.make_graph(nodes, key, [], outs), list(sub[key])))
+        return out
+    carried = call["args"][2]
+    ins = [onnx.helper.make_tensor_value_info("it", 7, []), onnx.helper.make_tensor_value_info("c_in", 9, [])]
+    ins += [onnx.helper.make_value_info(f"b{k}", T(v)) for k, v in enumerate(carried)]
+    nodes = [onnx.helper.make_node("Identity", ["c_in"], ["c_out"])]
+    outs = [onnx.helper.make_tensor_value_info("c_out", 9, [])]
+    used = []
+    for k, src in enumerate(sub["carried"]):
+        if src == "same":
+            nodes.append(onnx.helper.make_node("Identity", [f"b{k}"], [f"r{k}"]))
+            outs.append(onnx.helper.make_value_info(f"r{k}", T(carried[k])))
+        else:
+            nodes.append(onnx.helper.make_node("Identity", [f"i{src}"], [f"r{k}"]))
+            outs.append(onnx.helper.make_value_info(f"r{k}", T(src)))
+            used.append(src)
+    for k, v in enumerate(sub["scan"]):
+        nodes.append(onnx.helper.make_node("Identity", [f"i{v}"], [f"s{k}"]))
+        outs.append(onnx.helper.make_value_info(f"s{k}", T(v)))
+        used.append(v)
+    return [("body", onnx.helper.make_graph(nodes, "body", ins, outs), used)]
+
+
 def oracle_model(op: Op, call, explicit_defaults: bool = False, optional_outputs: bool = True) -> onnx.ModelProto:
     """The node written down directly from the schema and the argument list, in a one-node model.
     Value names: `i<var id>` for inputs, `o<k>` for outputs. An attribute left at its default is
@@ -785,6 +876,11 @@ def oracle_model(op: Op, call, explicit_defaults: bool = False, optional_outputs
     while len(outs) > sch.min_output and outs[-1] == "":
         outs.pop()
     node = onnx.helper.make_node(op.name, names, outs, name="n", domain=op.domain)
+    sub_used = []
+    if call.get("sub"):
+        for aname, g, used_ in oracle_bodies(call):
+            node.attribute.append(onnx.helper.make_attribute(aname, g))
+            sub_used += used_
     for aname, val in call["attrs"].items():
         node.attribute.append(oracle_attr(sch, aname, val))
     if explicit_defaults:
@@ -796,6 +892,9 @@ def oracle_model(op: Op, call, explicit_defaults: bool = False, optional_outputs
         for v in a if isinstance(a, list) else [a]:
             if v is not None and v not in used:
                 used.append(v)
+    for v in sub_used:  # outer-scope values read by the bodies
+        if v not in used:
+            used.append(v)
     ginputs = [onnx.helper.make_value_info(f"i{v}", ty_to_proto(call["vars"][v]["ty"])) for v in used]
     inits = []
     for v in used:
@@ -900,7 +999,8 @@ def _model_json(m: onnx.ModelProto) -> dict:
     return {
         "n_nodes": len(m.graph.node),
         "node": {"op": n.op_type, "domain": n.domain, "inputs": list(n.input), "outputs": list(n.output),
-                 "attrs": [[a.name, hashlib.sha1(a.SerializeToString(deterministic=True)).hexdigest()[:12]] for a in n.attribute]},
+                 "attrs": [[a.name, "graph" if a.type == onnx.AttributeProto.GRAPH else
+                            hashlib.sha1(a.SerializeToString(deterministic=True)).hexdigest()[:12]] for a in n.attribute]},
         "node_name": n.name,
         "ginputs": [[i.name, proto_to_ty(i.type)] for i in m.graph.input],
         "inits": inits,
@@ -935,8 +1035,21 @@ def run_spox(op: Op, call, value_prop: bool = False) -> dict:
                 kwargs[pname] = vs[a]
         for aname, val in call["attrs"].items():
             kwargs[aname] = spox_attr_value(cls, aname, val)
+        if call.get("sub"):
+            idn = importlib.import_module(op.module).identity
+            sub = call["sub"]
+            if op.name == "If":
+                kwargs["then_branch"] = lambda: [idn(vs[v]) for v in sub["then"]]
+                kwargs["else_branch"] = lambda: [idn(vs[v]) for v in sub["else"]]
+            else:
+                def body(i, c, *carried):
+                    outs = [idn(c)]
+                    for k, src in enumerate(sub["carried"]):
+                        outs.append(idn(carried[k]) if src == "same" else idn(vs[src]))
+                    return outs + [idn(vs[v]) for v in sub["scan"]]
+                kwargs["body"] = body
         extra = [k for k in kwn if k not in {f.name for f in dataclasses.fields(cls.Attributes)}]
-        if extra and call.get("out_count"):
+        if extra and call.get("out_count") and not call.get("sub"):
             kwargs[extra[0]] = call["out_count"]
 
         captured = res["captured"]
@@ -982,10 +1095,16 @@ def run_spox(op: Op, call, value_prop: bool = False) -> dict:
         if out is not None:
             outs = list(out) if isinstance(out, (tuple, list)) else [out]
             res["types"] = [from_spox_type(v.type) for v in outs]
+        if call.get("sub"):
+            # bodies create their own nodes (and inference requests): keep the operator under test only
+            seen_nodes = [n for n in seen_nodes if isinstance(n, cls)]
+            res["captured"] = [c for c in captured if c["model"] is not None and len(c["model"].graph.node) == 1
+                               and c["model"].graph.node[0].op_type == op.name]
         if seen_nodes:
             nd = seen_nodes[0]
             res["node"] = {
-                "attrs": [[k, None if v is None else hashlib.sha1(v._to_onnx().SerializeToString(deterministic=True)).hexdigest()[:12]]
+                "attrs": [[k, None if v is None else "graph" if type(v).__name__ == "AttrGraph" else
+                           hashlib.sha1(v._to_onnx().SerializeToString(deterministic=True)).hexdigest()[:12]]
                           for k, v in nd.attrs.get_fields().items()],
                 "var_ids": {id(v): i for i, v in enumerate(vs)},
             }
